@@ -630,7 +630,11 @@ class ForEmission(Task):
         t0 = time.time()
         res = []
         n_paths = 0
-        for b, buf in enumerate((None, "t_buf")):
+        # a plain loop writes nothing to the enclosing output itself: the frame's buffer only matters for the start call of a
+        # recursive loop
+        # (quick tier: one of the two buffer modes per recursive task, crossed with sync/async; thorough tier: both)
+        bufs = (None,) if not self.recursive else ((None, "t_buf") if tier != "quick" else (("t_buf",) if self.is_async else (None,)))
+        for b, buf in enumerate(bufs):
             try:
                 scs, I = emit.run_visitor("jinja2.compiler:CodeGenerator.visit_For", N.For, buffer=buf, configure=configure_for,
                                           node_fields={"recursive": self.recursive}, env_fields={"is_async": self.is_async})
@@ -1125,8 +1129,8 @@ QUERIES = [("loop",), ("caller", "kwargs", "varargs"), ("loop", "other")]
 
 def check_tree(label, make):
     """-> failure text or None"""
+    node = make()
     for names in QUERIES:
-        node = make()
         # as visit_For asks: the children in `body` of a loop around the tree; and as macro_body asks: a body list
         for how, nodes in (("For(body=[T]).iter_child_nodes(only=('body',))", lambda: N.For(_name("x", "store"), _name("s"), [node], [], None, False).iter_child_nodes(only=("body",))),
                            ("[T]", lambda: [node])):
@@ -1137,7 +1141,6 @@ def check_tree(label, make):
             want = reference_report([node], names)
             if set(got) != want:
                 return f"find_undeclared({how}, {names}) on T={label} reports {sorted(got)}, specification {sorted(want)}"
-    node = make()
     v = C.DependencyFinderVisitor()
     try:
         v.visit(node)
